@@ -154,7 +154,10 @@ Theorem C18_spellings_that_mean_the_same : forall parse_float regex_match,
   (forall g0 d, same_step parse_float regex_match (FQ (unspace_dnf d)) (FQS g0 d)) /\
   (forall t, same_step parse_float regex_match (FT t) (FT (TP t))) /\
   (forall i o lit, same_step parse_float regex_match (FQ [[BC i o lit]]) (FQ [[BCL lit (mirror_op o) i]])) /\
-  (forall i ne l, same_step parse_float regex_match (FQ [[BL i ne l]]) (FQ [[BLL l ne i]])).
+  (forall i ne l, same_step parse_float regex_match (FQ [[BL i ne l]]) (FQ [[BLL l ne i]])) /\
+  (forall i o j, match o with OLt | OLe | OGt | OGe => true | _ => false end = true ->
+     same_step parse_float regex_match (FQ [[BCR i o j]]) (FQ [[BRL j (mirror_op o) i]])) /\
+  (forall i ne j, same_step parse_float regex_match (FQ [[BPQ i ne j]]) (FQ [[BRL j (if ne then ONe else OEq) i]])).
 Proof.
   intros pf rm.
   split; [intros q k; split; [apply same_plain|apply same_rec]; intros lv; apply name_spellings|].
@@ -171,7 +174,9 @@ Proof.
   split; [intros g0 d; apply spaced_query_spellings|].
   split; [intros t; apply parenthesised_query_spellings|].
   split; [intros i o lit; apply literal_left_spellings|].
-  intros i ne l. apply typed_literal_left_spellings.
+  split; [intros i ne l; apply typed_literal_left_spellings|].
+  split; [intros i o j Ho; apply root_left_spellings; exact Ho|].
+  intros i ne j. apply root_left_eq_spellings.
 Qed.
 Print Assumptions C18_spellings_that_mean_the_same.
 
